@@ -98,6 +98,7 @@ pub fn check(ctx: &Ctx, ws: &mut Workers, c: &Case14, counting: bool) -> PropRes
         ctx.stats.eval();
         ctx.stats.class_n("modules", s.modules as u64);
         ctx.stats.class_n("requires-with-modifiers", s.requires_with_modifiers as u64);
+        ctx.stats.class_n("excluded-by-construction:KF-C14-contract-import-same-alias", s.excluded_contract_alias as u64);
         ctx.stats.class_n("private-name-probes", s.private_probes as u64);
         ctx.stats.class_n("provided-but-not-selected-probes", s.unimported_probes as u64);
         ctx.stats.class_n("main-defines-a-name-modules-use", s.main_defines_clashing as u64);
